@@ -1001,6 +1001,184 @@ def run(chk):
                                    % (b.file, ln, ax[0], ax[1])), [], "%s:%s" % (b.file, ln)
             ev_.append("%s:%s in [%d, %d]" % (b.file, ln, ax[0], ax[1]))
         return True, "", ev_
+    def rfc3339_length_window():
+        """The formatter's template is `0000-00-00T00:00:00Z` (20 bytes) through `0000-00-00T00:00:00.000000000Z` (30 bytes): the parser's length test
+        rejects exactly the lengths outside [template length without fraction, with nine fraction digits] - an off-by-one there refuses every
+        whole-second timestamp the formatter writes (or admits a 31-byte one).  The bounds are computed from the formatter's own template constant."""
+        b = P.body("emit_core::timestamp::parse_rfc3339")
+        tpl = None
+        for k, v in P.consts.items():
+            if k.startswith("emit_core::timestamp::fmt_rfc3339::") and isinstance(v.get("v"), dict) and "bytes" in v["v"]:
+                tpl = v["v"]["bytes"]
+        if not tpl:
+            raise mir.AnchorMissing("the formatter's template constant")
+        hi = len(tpl)
+        lo = len(tpl) - 10          # without `.` and nine digits
+        cons = []
+        for bb, t in b.switches():
+            c = mir.norm_cmp(b.switch_origin(bb), lambda o: o[0] == "unop" and o[1] == "PtrMetadata" or (o[0] == "call" and o[1].callee.get("name") == "len") or "PtrMetadata" in o_str(o))
+            if c is None:
+                continue
+            op, l, r = c
+            k = mir.o_const_value(r)
+            if not isinstance(k, int) or b.in_cycle(bb):
+                continue
+            # which edge leads (directly) to the invalid-length error?
+            for v, n in [(str(v), n) for v, n in t["targets"]] + [("otherwise", t["otherwise"])]:
+                cons.append((bb, op, k, v != "0", n))
+        if not cons:
+            raise mir.AnchorMissing("the length test of parse_rfc3339")
+        # evaluate: a length L is rejected if some test's taken edge for L reaches only Err returns without further length tests
+        def rejected(L):
+            for bb, op, k, truth, n in cons:
+                holds = {"Lt": L < k, "Le": L <= k, "Gt": L > k, "Ge": L >= k, "Eq": L == k, "Ne": L != k}[op]
+                if holds == truth:
+                    rs = []
+                    for rb in b.return_blocks():
+                        if rb in b.reachable_from(n):
+                            for path in b.acyclic_paths(n, rb, limit=50):
+                                rs.append(mir.PathSummary(b, path).ret())
+                            if len(rs) > 60:
+                                break
+                    if rs and all(r_[0] == "agg" and r_[1].get("variant") == "Err" for r_ in rs) and len(rs) <= 3:
+                        return True
+            return False
+        bad = [L for L in range(0, 64) if rejected(L) != (L < lo or L > hi)]
+        if bad:
+            return False, ("the RFC 3339 parser's length test %s input of length %s; the formatter writes texts of %d (whole seconds) to %d bytes, and exactly "
+                           "those lengths may go on to be parsed" % ("rejects" if rejected(bad[0]) else "lets through", bad[:4], lo, hi)), [], b.span
+        return True, "", ["lengths %d..=%d" % (lo, hi)]
+    chk.ob("C15.R4:rfc3339-length-window", "the parser admits exactly the lengths the formatter's template can produce", rfc3339_length_window)
+
+    def month_table():
+        """from_parts adds the seconds of the months before the given one from a 12-entry table: the cumulative day counts of a non-leap year
+        (0, 31, 59, 90, 120, 151, 181, 212, 243, 273, 304, 334) times 86 400.  The table is data - calendar facts - and is compared entry by entry."""
+        bs = [x for k, x in P.bodies.items() if k.endswith("timestamp::Timestamp::from_parts")]
+        if not bs:
+            raise mir.AnchorMissing("Timestamp::from_parts")
+        b = bs[0]
+        days = [0, 31, 59, 90, 120, 151, 181, 212, 243, 273, 304, 334]
+        found = None
+        for bb, j, st in b.statements(normal_only=True):
+            rv = st.get("rv") if st["k"] == "assign" else None
+            if rv and rv["k"] == "agg" and rv.get("ak") == "array" and len(rv.get("ops") or []) == 12:
+                def fold(o, d=0):
+                    v = mir.o_const_value(o)
+                    if isinstance(v, int) and not isinstance(v, bool):
+                        return v
+                    if d > 6:
+                        return None
+                    if o[0] in ("field", "cast", "copy"):
+                        return fold(o[1], d + 1)
+                    if o[0] == "binop":
+                        a_, c_ = fold(o[2], d + 1), fold(o[3], d + 1)
+                        if a_ is None or c_ is None:
+                            return None
+                        op = o[1].replace("WithOverflow", "").replace("Unchecked", "")
+                        try:
+                            return {"Mul": a_ * c_, "Add": a_ + c_, "Sub": a_ - c_, "Div": a_ // c_ if c_ else None, "Rem": a_ % c_ if c_ else None}.get(op)
+                        except Exception:
+                            return None
+                    return None
+                found = [fold(b.origin(o)) for o in rv["ops"]]
+        if found is None:
+            for k, v in P.consts.items():
+                if "from_parts" in k and isinstance(v.get("v"), dict) and isinstance(v["v"].get("array"), list) and len(v["v"]["array"]) == 12:
+                    found = v["v"]["array"]
+        if found is None:
+            raise mir.AnchorMissing("the 12-entry month table of from_parts")
+        want = [d * 86400 for d in days]
+        if found != want:
+            i = [i for i in range(12) if found[i] != want[i]][0]
+            return False, ("the month table of from_parts has %s at month %d where %d days x 86400 = %d belong: every date from that month on is off"
+                           % (found[i], i + 1, days[i], want[i])), [], b.span
+        return True, "", ["12 entries"]
+    chk.ob("C15.R5:month-table", "the month offsets of from_parts are the cumulative day counts of a common year, in seconds", month_table)
+
+    def leap_flag_table():
+        """The leap flag of from_parts, arm by arm (Gregorian rule): in the shortcut branch it is set exactly on the `trailing_zeros() >= 2` edge (year
+        divisible by four); in the general branch it is true for a multiple of 400 (`% 400` remainder zero), false for any other century year (the
+        within-century remainder zero) and otherwise `remainder % 4 == 0`.  Each constant assignment of the flag is matched with the innermost of those
+        tests that guards it."""
+        bs = [x for k, x in P.bodies.items() if k.endswith("timestamp::Timestamp::from_parts")]
+        if not bs:
+            raise mir.AnchorMissing("Timestamp::from_parts")
+        b = bs[0]
+        # the flag: the bool converted with i64::from in the leap-day count
+        L = None
+        for c in b.calls(normal_only=True):
+            if c.callee.get("name") == "from" and "bool" in (c.callee.get("full") or "") and c.args:
+                L = panics._raw_local(b, c.args[0], c.bb)
+        if L is None:
+            raise mir.AnchorMissing("the leap flag (the bool converted with i64::from) in from_parts")
+        var = None
+        for bb, j, st in b.statements(normal_only=True):
+            rv = st.get("rv") if st["k"] == "assign" else None
+            if rv and rv["k"] == "binop" and rv["op"] == "Rem" and mir.o_const_value(b.origin(rv["b"])) == 400 and "p" not in st["place"]:
+                var = st["place"]["l"]
+        century_blocks = set()
+        for bb, j, st in b.statements(normal_only=True):
+            rv = st.get("rv") if st["k"] == "assign" else None
+            if rv and rv["k"] == "binop" and rv["op"].startswith("Sub") and mir.o_const_value(b.origin(rv["b"])) in (100, 200, 300) \
+                    and panics._raw_local(b, rv["a"], bb) == var:
+                century_blocks.add(bb)
+        n = 0
+        for bb, j, st in b.statements(normal_only=True):
+            if st["k"] != "assign" or "p" in st["place"] or st["place"]["l"] != L:
+                continue
+            rv = st["rv"]
+            val = mir.o_const_value(b.origin(rv["op"])) if rv["k"] == "use" else None
+            if rv["k"] == "binop":
+                n += 1
+                if not (rv["op"] == "Eq" and mir.o_const_value(b.origin(rv["b"])) == 0):
+                    return False, ("the leap flag is computed as `remainder %s %s` at %s:%s; a year inside a century is a leap year exactly when its remainder "
+                                   "modulo four is zero" % (rv["op"], o_str(b.origin(rv["b"])), b.file, st.get("line"))), [], "%s:%s" % (b.file, st.get("line"))
+                continue
+            if val not in (True, False):
+                continue
+            n += 1
+            # innermost guarding test
+            best = None
+            for g, vals, tgt in b.guards_of(bb):
+                so, pos = mir.norm_bool(b.switch_origin(g))
+                taken = ("0" not in [str(v) for v in vals]) == pos
+                kind = None
+                if so[0] == "binop" and so[1] in ("Ge", "Gt", "Lt", "Le") and "trailing_zeros" in o_str(so):
+                    c = mir.norm_cmp(so, lambda o: "trailing_zeros" in o_str(o))
+                    if c and mir.o_const_value(c[2]) is not None:
+                        k = mir.o_const_value(c[2])
+                        div4 = {"Ge": k == 2, "Gt": k == 1}.get(c[0])
+                        if div4 is None and c[0] in ("Lt", "Le"):
+                            div4 = {"Lt": k == 2, "Le": k == 1}.get(c[0])
+                            taken = not taken if div4 else taken
+                        if div4:
+                            kind = ("div4", taken)
+                elif so[0] == "binop" and so[1] in ("Eq", "Ne") and var is not None:
+                    dl = b._op_local(b.blocks[g]["term"]["discr"])
+                    ds = [d for d in b.defs().get(dl, ()) if d[2] == "assign"]
+                    if len(ds) == 1 and ds[0][3]["k"] == "binop" and panics._raw_local(b, ds[0][3]["a"], g) == var and mir.o_const_value(b.origin(ds[0][3]["b"])) == 0:
+                        zero = taken if so[1] == "Eq" else not taken
+                        after_century = any(g in b.reachable_from(cb) for cb in century_blocks)
+                        kind = ("century-zero" if after_century else "cycle-zero", zero)
+                if kind and (best is None or b.dominates(best[0], g)):
+                    best = (g, kind)
+            if best is None:
+                return False, "the leap flag is set to %s at %s:%s outside any of the tests that decide it" % (val, b.file, st.get("line")), [], "%s:%s" % (b.file, st.get("line"))
+            (what, holds) = best[1]
+            want = {("div4", True): True, ("div4", False): False, ("cycle-zero", True): True, ("century-zero", True): False}.get((what, holds))
+            if want is None:
+                continue
+            if val is not want:
+                return False, ("the leap flag is set to %s at %s:%s on the edge where %s: the Gregorian rule makes that year %s"
+                               % (val, b.file, st.get("line"),
+                                  {"div4": "the year is%s divisible by four" % ("" if holds else " not"), "cycle-zero": "the year is a multiple of 400",
+                                   "century-zero": "the year is a century year that is not a multiple of 400"}[what],
+                                  "a leap year" if want else "a common year")), [], "%s:%s" % (b.file, st.get("line"))
+        if n < 5:
+            raise mir.AnchorMissing("the leap flag's assignments in from_parts (found %d)" % n)
+        return True, "", ["%d assignments" % n]
+    chk.ob("C15.R5:leap-flag-table", "the leap flag of from_parts follows the Gregorian rule arm by arm", leap_flag_table)
+
     chk.ob("C15.R5:century-remainder-bounded", "interval analysis: the years-within-century remainder reaches the every-fourth-year step within [0, 99]", century_remainder_bounded)
 
     chk.ob("C15.R5:century-years-not-leap", "the every-fourth-year rule is only applied to a non-zero within-century remainder", century_years_not_leap)
